@@ -1209,6 +1209,15 @@ func doWalk(cs *connState, ref *fidRef, names []string, getattr bool) (qids []QI
 	if len(names) == 0 {
 		var sf File // Temporary.
 		if err := ref.maybeParent().safelyRead(func() (err error) {
+			// The clone calls Walk (and possibly GetAttr) on ref's own
+			// File, which are read operations on ref's path: hold ref's
+			// own node as well. Deeper nodes are always acquired after
+			// shallower ones.
+			if ref.parent != nil {
+				ref.pathNode.opMu.RLock()
+				defer ref.pathNode.opMu.RUnlock()
+			}
+
 			// Clone the single element.
 			qids, sf, valid, attr, err = walkOne(nil, ref.file, nil, getattr)
 			if err != nil {
